@@ -292,6 +292,58 @@ func runC10(p *core.Prog, r *core.Report) {
 				}
 				r.Check(ok1, "C10-R4", "scanner: one ArgValue assignment per consumed flag", p.FuncPos(scanner), "exactly one per trip around the loop", d1)
 				r.Check(ok2, "C10-R4", "scanner: every iteration consumes at least one token", p.FuncPos(scanner), "args advanced on every trip around the loop", d2)
+				// a switch consumes only itself: once the flag's Value has answered "I am a boolean flag" (a bool method of
+				// an interface the Value is asserted to), nothing more is taken from args in that iteration
+				{
+					var swEdges []sx.Edge
+					sx.Instrs(scanner, func(in ssa.Instruction) {
+						c, ok := in.(*ssa.Call)
+						if !ok || !c.Call.IsInvoke() || c.Referrers() == nil {
+							return
+						}
+						if bt, isB := c.Type().Underlying().(*types.Basic); !isB || bt.Kind() != types.Bool || len(c.Call.Args) != 0 {
+							return
+						}
+						fromAssert := false
+						switch x := sx.Unspill(c.Call.Value).(type) {
+						case *ssa.TypeAssert:
+							fromAssert = true
+						case *ssa.Extract:
+							_, fromAssert = x.Tuple.(*ssa.TypeAssert)
+						}
+						if !fromAssert {
+							return
+						}
+						for _, u := range *c.Referrers() {
+							if iff, ok := u.(*ssa.If); ok {
+								swEdges = append(swEdges, sx.Edge{From: iff.Block(), Idx: 0})
+							}
+						}
+					})
+					okSw, dSw := true, ""
+					for _, e := range swEdges {
+						to := e.To()
+						if len(to.Instrs) == 0 {
+							continue
+						}
+						sx.Instrs(scanner, func(in ssa.Instruction) {
+							st, ok := in.(*ssa.Store)
+							if !ok {
+								return
+							}
+							fa, ok := st.Addr.(*ssa.FieldAddr)
+							if !ok || sx.FieldOf(fa) != args {
+								return
+							}
+							if in.Block() == to || sx.ReachInstr(scanner, to.Instrs[0], in, sx.Cut{Blocks: map[*ssa.BasicBlock]bool{hdr: true}}) {
+								okSw, dSw = false, "after the flag's Value declared itself a boolean flag (edge at "+p.Pos(e.From.Instrs[len(e.From.Instrs)-1].Pos())+") the scanner still takes a token from args at "+p.Pos(in.Pos())+": `-verbose false x` or `-v 1 -name=late` lose a positional argument to the switch"
+							}
+						})
+					}
+					if len(swEdges) > 0 {
+						r.Check(okSw, "C10-R4", "scanner: a boolean flag consumes no further token", p.FuncPos(scanner), "no advance of args behind the is-a-switch edge within the iteration", dSw)
+					}
+				}
 			}
 		}
 	}
